@@ -295,6 +295,11 @@ func newClientOn(fr string, c *sconn.Conn, unit uint8, e, w int) *modbus.ModbusC
 	}
 	mc.SetUnitId(unit)
 	mc.SetEncoding(modbus.Endianness(e), modbus.WordOrder(w))
+	// the configured encoding is the last ACCEPTED one: two calls that must be
+	// refused (each carries the other value of one selector next to an invalid
+	// value of the other) leave it as it is
+	mc.SetEncoding(modbus.Endianness(3-e), modbus.WordOrder(0))
+	mc.SetEncoding(modbus.Endianness(9), modbus.WordOrder(3-w))
 	return mc
 }
 
